@@ -188,6 +188,23 @@ CLAIMS.update({
         ref="§7 C17"),
 })
 
+CLAIMS.update({
+    "C16": dict(
+        technique="Lean 4 simulation proof that pattern matching, currency lookup, variable lookup and keys are invariant under token offsets and the letter case of word tokens (relation Sim, induction over find_match's scan) + metamorphic enumeration over the lines of all other generators",
+        text="Proof (every number type): two token lists that agree up to offsets, original text and the letter case of word tokens (relation Sim - what extra "
+             "blanks, a dropped comment and re-cased keywords do to the lexed tokens) are indistinguishable for the rewrite layers' comparisons: "
+             "tokFieldCompare_case, tokEq_case, infoEq_case; find_match returns the same verdict and indices and binds Sim-related fields "
+             "(findMatch_case by induction over the scan with arbitrary accumulators; findMatch_offsets for pure shifts); replacing the matched "
+             "range keeps the lines related (replaceRange_tokens); currency names, variable-name search and the session key of a name are "
+             "case-insensitive (readCurrency_case, infoEqTok_case, matchesAt_case, findLocation_case, varKey_case); a type-less token inside a "
+             "line neither matches nor resets a pattern (untyped_skipped). That the regexes produce Sim-related tokens for a line and its noisy "
+             "variant (month / zone lookup on case-mapped copies, comment and blank recognition) is string level and decided by the metamorphic "
+             "run: blanks x comments from a hostile pool x four case patterns of every keyword class x all value kinds, values compared exactly; "
+             "blank / comment-only lines give an empty slot. One defect repaired in /repo (month name inside a comment).",
+        note="Trusted: Lean kernel + 3 axioms; regex layer not modelled; case of unit / duration / day words and base names is not demanded and left unchanged by the generator.",
+        ref="§7 C16"),
+})
+
 NOT_YET = {}
 
 
